@@ -612,13 +612,13 @@ Proof.
   repeat split; intros Hx; apply Hno; apply (gde_tops_panics e pos g b fds p Hb'); tauto.
 Qed.
 
-(* with the repaired reader: the same entry point *)
-Definition gde_repaired_top (e : endian) (pos : N) (g : sig) (b : bytes) (fds : list N) : res cerr (gval * N) :=
-  let* (v, st) := gde_repaired gde_fuel (ginit_dst e pos g b fds) in Ok (v, r_pos st).
-Theorem gde_repaired_top_nopanic e pos g b fds p : len b < 18446744073709551616 ->
-  gde_repaired_top e pos g b fds = Panic p -> p = PStack /\ stack_limit < len b.
+(* with the repaired reader, for any recursion fuel *)
+Definition gde_repaired_top (fuel : nat) (e : endian) (pos : N) (g : sig) (b : bytes) (fds : list N) : res cerr (gval * N) :=
+  let* (v, st) := gde_repaired fuel (ginit_dst e pos g b fds) in Ok (v, r_pos st).
+Theorem gde_repaired_top_nopanic fuel e pos g b fds p : len b < 18446744073709551616 ->
+  gde_repaired_top fuel e pos g b fds = Panic p -> p = PStack /\ stack_limit < len b.
 Proof.
   intros Hb H. unfold gde_repaired_top in H.
-  apply (panic_of_bind (gde_repaired gde_fuel (ginit_dst e pos g b fds))) in H; [|intros [v st] q; discriminate].
-  pose proof (gde_repaired_nopanic gde_fuel (ginit_dst e pos g b fds) p (wfst_init e pos g b fds Hb) H) as H1. exact H1.
+  apply (panic_of_bind (gde_repaired fuel (ginit_dst e pos g b fds))) in H; [|intros [v st] q; discriminate].
+  pose proof (gde_repaired_nopanic fuel (ginit_dst e pos g b fds) p (wfst_init e pos g b fds Hb) H) as H1. exact H1.
 Qed.
